@@ -510,13 +510,13 @@ func (w *World) Project() *State {
 	nodes := w.listNodes()
 	pods := w.listPods()
 	for _, g := range w.Gorder {
-		gs := Group{Cfg: w.Cfgs[g], Api: map[string]NodeObj{}, Pods: []Pod{}, Accepted: w.Accepted[g]}
+		gs := Group{Cfg: w.Cfgs[g], Api: NodeMap{}, Pods: []Pod{}, Accepted: w.Accepted[g]}
 		for _, n := range nodes {
 			if n.Labels[LabelKey] == g {
 				gs.Api[n.Name] = w.ProjectNode(n)
 			}
 		}
-		gs.View = map[string]NodeObj{}
+		gs.View = NodeMap{}
 		if lv := w.LagView[g]; lv != nil {
 			gs.Lag = true
 			for id, n := range lv {
